@@ -2,12 +2,16 @@ package props
 
 import (
 	"bytes"
+	"crypto/rsa"
+	"filippo.io/age/agessh"
 	"fmt"
+	"math/big"
 	"os"
 	"path/filepath"
 	"runtime"
 	"sync"
 	"testing"
+	"time"
 
 	"filippo.io/age"
 	"filippo.io/age/verifh/hx"
@@ -69,6 +73,11 @@ func c20Check(c c20Case, st *stats.Run) error {
 		switch k {
 		case "scrypt":
 			specs = append(specs, hx.RecSpec{Kind: "scrypt", Pass: "shared passphrase", WF: 2})
+		case "scrypt16":
+			// a work factor of everyday size (the default is 18)
+			specs = append(specs, hx.RecSpec{Kind: "scrypt", Pass: "shared passphrase", WF: 16})
+		case "rsa-raw":
+			specs = append(specs, hx.RecSpec{Kind: "rsa", Idx: i % 3})
 		default:
 			specs = append(specs, hx.RecSpec{Kind: k, Idx: i % 3})
 		}
@@ -76,9 +85,24 @@ func c20Check(c c20Case, st *stats.Run) error {
 	// the shared values
 	var recs []age.Recipient
 	var ids []age.Identity
-	for _, s := range specs {
+	for i, s := range specs {
 		recs = append(recs, p.Recipient(s))
-		ids = append(ids, p.Identity(s))
+		switch c.Kinds[i] {
+		case "rsa-raw":
+			// an RSA key assembled from its numbers (N, E, D, primes), as a caller with its own key store would: no precomputed values
+			k := p.RSA[s.Idx]
+			raw := &rsa.PrivateKey{PublicKey: rsa.PublicKey{N: new(big.Int).Set(k.N), E: k.E}, D: new(big.Int).Set(k.D), Primes: []*big.Int{new(big.Int).Set(k.Primes[0]), new(big.Int).Set(k.Primes[1])}}
+			id, err := agessh.NewRSAIdentity(raw)
+			if err != nil {
+				return pbt.Failf("C20/harness", "%v", err)
+			}
+			ids = append(ids, id)
+		case "scrypt16":
+			id, _ := age.NewScryptIdentity(s.Pass)
+			ids = append(ids, id)
+		default:
+			ids = append(ids, p.Identity(s))
+		}
 	}
 	// fixed files, made by the reference implementation
 	fixedPlain := hx.PRG(42, 70000)
@@ -250,7 +274,13 @@ func c20Check(c c20Case, st *stats.Run) error {
 		}(gi, g)
 	}
 	close(start)
-	wg.Wait()
+	finished := make(chan struct{})
+	go func() { wg.Wait(); close(finished) }()
+	select {
+	case <-finished:
+	case <-time.After(240 * time.Second):
+		return pbt.Failf("C20/concurrent-result-differs", "%d goroutines sharing %v values did not finish within 240 s (every operation takes well under a second alone): they block one another", len(c.Goroutines), c.Kinds)
+	}
 	close(errs)
 	if raceLogSize() != before {
 		return pbt.Failf("C20/data-race", "the race detector reported a data race while %d goroutines shared %v values:\n%s", len(c.Goroutines), c.Kinds, raceLogTail())
@@ -311,6 +341,24 @@ func TestC20(t *testing.T) {
 				gs = append(gs, []c20Op{{Op: "dec-many", Len: -n}, {Op: "dec-damaged"}, {Op: "dec-damaged"}})
 			}
 			yield(c20Case{Kinds: []string{k}, Goroutines: gs, Procs: 16, Fresh: false})
+		}
+	}, check)
+	// an RSA key without precomputed values, first used by all goroutines at once; passphrase values with an everyday work factor
+	pbt.Each(s, "concurrent", func(yield func(c20Case)) {
+		for rep := 0; rep < 2; rep++ {
+			var gs [][]c20Op
+			for i := 0; i < 12; i++ {
+				gs = append(gs, []c20Op{{Op: "dec"}, {Op: "wrap"}})
+			}
+			yield(c20Case{Kinds: []string{"rsa-raw"}, Goroutines: gs, Procs: 16, Fresh: true})
+		}
+		var gs [][]c20Op
+		for i := 0; i < 6; i++ {
+			gs = append(gs, []c20Op{{Op: "enc", Len: 10}})
+		}
+		yield(c20Case{Kinds: []string{"scrypt16"}, Goroutines: gs, Procs: 4, Fresh: true})
+		if s.Thorough() {
+			yield(c20Case{Kinds: []string{"scrypt16"}, Goroutines: append(append(append(gs, gs...), gs...), gs...), Procs: 16, Fresh: false})
 		}
 	}, check)
 	// a shared list of identities, each file matching another entry
